@@ -796,9 +796,15 @@ func (la *LockAnalysis) ReentrantCalls(pkgs ...string) []Reacquire {
 			if recv == nil || f.Body == nil {
 				continue
 			}
+			// A call started with the go keyword runs on another goroutine:
+			// it waits for the lock, it does not re-enter it.
+			spawned := map[*ast.CallExpr]bool{}
 			InspectNoLit(f.Body, func(n ast.Node) bool {
+				if gs, ok := n.(*ast.GoStmt); ok {
+					spawned[gs.Call] = true
+				}
 				call, ok := n.(*ast.CallExpr)
-				if !ok {
+				if !ok || spawned[call] {
 					return true
 				}
 				if lk, _ := f.LockOp(call); lk != nil {
